@@ -24,9 +24,9 @@ EXTENDS MasterHub, Json
 CONSTANTS Behaviours,   \* subset of AllBehaviours
           V1, V2, V3    \* what request 1, 2, 3 may be: sets of verbs and/or "skip" (never sent)
 
-VARIABLES plan, script, pc, hist
+VARIABLES plan, file, script, pc, hist
 
-gvars == <<plan, script, pc, hist>>
+gvars == <<plan, file, script, pc, hist>>
 allvars == <<vars, gvars>>
 
 AllBehaviours == {"ok", "failure", "silent", "closed", "close", "okclose", "dupok", "late", "procok", "failok"}
@@ -39,7 +39,8 @@ ASSUME Workers = 1..NW /\ Reqs = 1..NR /\ NR <= 3
 Rank(b) == CASE b = "ok" -> 1 [] b = "failure" -> 2 [] b = "silent" -> 3 [] b = "closed" -> 4 [] b = "close" -> 5
              [] b = "okclose" -> 6 [] b = "dupok" -> 7 [] b = "late" -> 8 [] b = "procok" -> 9 [] b = "failok" -> 10
 
-NParts(r) == IF plan[r] = "load" THEN Parts ELSE 1
+\* requests request r scatters to every worker (a load-state: the records accepted before the damage, if any)
+NParts(r) == IF plan[r] = "load" THEN Accepted(file[r]) ELSE 1
 
 Ans(p, st, late) == [k |-> "ans", p |-> p, st |-> st, late |-> late]
 Close(p) == [k |-> "close", p |-> p, st |-> "", late |-> FALSE]
@@ -71,11 +72,14 @@ GenInit ==
   /\ Init
   /\ plan \in [Reqs -> Verbs \cup {"skip"}]
   /\ \A r \in Reqs : plan[r] \in <<V1, V2, V3>>[r]
+  \* the state file a load-state names: any shape of Files
+  /\ file \in [Reqs -> Files \cup {NoFile}]
+  /\ \A r \in Reqs : file[r] \in FilesOf(plan[r])
   \* a stop verb ends the scenario: only as the last request sent
   /\ \A r \in Reqs : plan[r] \in StopVerbs => \A q \in Reqs : q > r => plan[q] = "skip"
   /\ script \in [Workers -> [Reqs -> Behaviours]]
   \* requests that scatter nothing have no use for a script
-  /\ \A w \in Workers, r \in Reqs : plan[r] \in {"skip", "workerBad"} => script[w][r] = "silent"
+  /\ \A w \in Workers, r \in Reqs : (plan[r] \in {"skip", "workerBad"} \/ NParts(r) = 0) => script[w][r] = "silent"
   \* workers are interchangeable: rows in non-decreasing order
   /\ \A w \in Workers : w + 1 \in Workers => LexLeq(Row(script, w), Row(script, w + 1))
   /\ pc = [w \in Workers |-> [r \in Reqs |-> 1]]
@@ -118,13 +122,13 @@ SendEnabled(r) ==
   /\ req[r].st = "idle"
   /\ \A q \in Reqs : q < r /\ plan[q] # "skip" => req[q].st # "idle"        \* in request order
   /\ \A w \in Workers : script[w][r] = "closed" => pc[w][r] > 1             \* after the pre-closes
-  /\ ENABLED Client_Send(r, plan[r])
+  /\ ENABLED Client_Send(r, plan[r], file[r])
 
 GenSend(r) ==
   /\ HubIdle /\ SendEnabled(r)
-  /\ Client_Send(r, plan[r])
+  /\ Client_Send(r, plan[r], file[r])
   /\ hist' = Append(hist, Ev("send", r, 0, 0, plan[r], FALSE))
-  /\ UNCHANGED <<plan, script, pc>>
+  /\ UNCHANGED <<plan, file, script, pc>>
 
 \* A worker event happens when the hub is idle - except that a worker may also close its channel
 \* right behind its own answer, before the hub has read it (answer and hang-up arrive together).
@@ -135,7 +139,7 @@ GenStep(w, r) ==
      /\ IF s.k = "ans" THEN Worker_Answer(w, Id(w, r, s.p), s.st) ELSE Worker_Close(w)
      /\ hist' = Append(hist, Ev(IF s.k = "ans" THEN "ans" ELSE "close", r, w, s.p, s.st, ~HubIdle))
   /\ pc' = [pc EXCEPT ![w][r] = @ + 1]
-  /\ UNCHANGED <<plan, script>>
+  /\ UNCHANGED <<plan, file, script>>
 
 \* a full timeout period elapses, only when nobody can do anything else
 GenTick ==
@@ -144,7 +148,7 @@ GenTick ==
   /\ \A w \in Workers, r \in Reqs : ~StepEnabled(w, r)
   /\ Tick(T)
   /\ hist' = Append(hist, Ev("tick", 0, 0, 0, "", FALSE))
-  /\ UNCHANGED <<plan, script, pc>>
+  /\ UNCHANGED <<plan, file, script, pc>>
 
 GenHub == HubNext /\ UNCHANGED gvars
 
@@ -166,13 +170,15 @@ Terminal ==
 Ideal(r) ==
   CASE req[r].st = "idle" -> "none"
     [] plan[r] = "workerBad" -> "failure"
+    [] plan[r] = "load" /\ (file[r] = Missing \/ Damaged(file[r])) -> "failure"     \* the file could not be loaded
     [] tasks[r].st = "none" -> "none"
-    [] OTHER -> IF \A w \in tasks[r].targets, p \in PartsOf(tasks[r].kind) : firstAns[Id(w, r, p)] = "ok"
+    [] OTHER -> IF \A w \in tasks[r].targets, p \in 1..tasks[r].nparts : firstAns[Id(w, r, p)] = "ok"
                 THEN "ok" ELSE "failure"
 
 Emit ==
   Terminal => PrintT(<<"REPLAY", ToJson([nw     |-> NW,
                                           plan   |-> plan,
+                                          file   |-> file,
                                           script |-> script,
                                           events |-> hist,
                                           final  |-> Obs,
